@@ -351,10 +351,34 @@ SETTINGS = [(dm, ann, omp) for dm in (False, True) for ann in (False, True) for 
 REPROD_SETTINGS = [(dm, ann, "reprod") for dm in (False, True) for ann in (False, True)]
 OMP_SUFFIX = {False: "", True: "_omp", "region": "_ompregion", "reprod": "_ompreprod"}
 OMP_CODE = {False: 0, True: 1, "region": 2, "reprod": 3}
+# option grid of the OpenMP loop transformations, for the reduction built-ins: omp_schedule of
+# DynamoOMPParallelLoopTrans ("pardo") and Dynamo0p3OMPLoopTrans ("region"; "reprod" = reprod=True).
+# A grid mode is the string "<base>@<schedule>"; the default schedule (static) is the plain mode above.
+SCHEDULES = ["static", "none", "dynamic", "guided", "auto", "static,4"]
+GRID_SETTINGS = [(dm, ann, "%s@%s" % (base, sch)) for dm, ann in ((False, False), (True, True))
+                 for base in ("pardo", "region", "reprod") for sch in SCHEDULES if sch != "static"]
+
+
+def omp_base(omp):
+    """mode -> False | True | 'region' | 'reprod'"""
+    if isinstance(omp, str) and "@" in omp:
+        b = omp.split("@")[0]
+        return True if b == "pardo" else b
+    return omp
+
+
+def omp_sched(omp):
+    return omp.split("@")[1] if isinstance(omp, str) and "@" in omp else None
+
+
+def omp_code(omp):
+    sch = omp_sched(omp)
+    return OMP_CODE[omp_base(omp)] * 10 + (SCHEDULES.index(sch) if sch else 0)
 
 
 def setting_tag(dm, ann, omp):
-    return "dm%d_ann%d%s" % (dm, ann, OMP_SUFFIX[omp])
+    sch = omp_sched(omp)
+    return "dm%d_ann%d%s%s" % (dm, ann, OMP_SUFFIX[omp_base(omp)], "_s" + cid(sch) if sch else "")
 
 
 def builtin_table():
@@ -948,10 +972,11 @@ def translate_chunk(job):
                     if len(loops) != 1:
                         raise TranslateError("code: %s: %d loops before transformation" % (name, len(loops)))
                     try:
-                        if omp is True:
-                            DynamoOMPParallelLoopTrans().apply(loops[0])
+                        kw = {"omp_schedule": omp_sched(omp)} if omp_sched(omp) else {}
+                        if omp_base(omp) is True:
+                            DynamoOMPParallelLoopTrans(**kw).apply(loops[0])
                         else:
-                            Dynamo0p3OMPLoopTrans().apply(loops[0], {"reprod": omp == "reprod"})
+                            Dynamo0p3OMPLoopTrans(**kw).apply(loops[0], {"reprod": omp_base(omp) == "reprod"})
                             OMPParallelTrans().apply(loops[0].parent.parent)
                     except TransformationError as err:
                         rejected[name] = str(err.value)[:200]
@@ -973,7 +998,10 @@ def translate_chunk(job):
                 inst, R = build_instance(name, sk, actual[name], args, dm, ann, omp)
                 if omp and inst["omp"] is None:
                     raise TranslateError("code: %s: OpenMP transformation applied but no directive generated" % name)
-                want = {True: "pardo", "region": "region", "reprod": "reprod"}.get(omp)
+                want = {True: "pardo", "region": "region", "reprod": "reprod"}.get(omp_base(omp))
+                inst["mode"] = omp
+                if omp and omp_sched(omp) is not None and inst["omp"]["schedule"] != ("" if omp_sched(omp) == "none" else omp_sched(omp)):
+                    raise TranslateError("code: %s: schedule %r requested, generated %r" % (name, omp_sched(omp), inst["omp"]["schedule"]))
                 if omp and inst["omp"]["form"] != want:
                     raise TranslateError("code: %s: transformation %r gave OpenMP form %r" % (name, omp, inst["omp"]["form"]))
                 # route 2: lowered PSyIR must serialise to the same kernel and the same bound variables
@@ -1027,7 +1055,7 @@ def translate_code(scratch, names=None, settings=SETTINGS, variant=None, log=Non
         # reproducible OpenMP reductions: only meaningful for the built-ins that write a scalar
         red = [t for t in todo if any(k == "scl" and w for k, _, w in t[2])]
         if red:
-            jobs.append((red, str(scratch / "c20_alg_reprod.f90"), list(REPROD_SETTINGS), variant))
+            jobs.append((red, str(scratch / "c20_alg_reprod.f90"), list(REPROD_SETTINGS) + list(GRID_SETTINGS), variant))
     results = [_worker(j) for j in jobs]
     instances, psy_texts = {}, {}
     for status, payload in results:
@@ -1168,7 +1196,7 @@ def emit_code(table, instances):
         out.append('Definition nm_%s : string := "%s".' % (cid(name), name))
         out.append("Definition args_%s : list akind := %s." % (cid(name), coq_args(args)))
     out.append("\nDefinition builtin_names : list string := [%s].\n" % "; ".join("nm_%s" % cid(n) for n, _, _ in table))
-    for (name, dm, ann, omp), inst in sorted(instances.items(), key=lambda kv: ([n for n, _, _ in table].index(kv[0][0]), kv[0][1], kv[0][2], OMP_CODE[kv[0][3]])):
+    for (name, dm, ann, omp), inst in sorted(instances.items(), key=lambda kv: ([n for n, _, _ in table].index(kv[0][0]), kv[0][1], kv[0][2], omp_code(kv[0][3]))):
         if "rejected" in inst:
             out.append("(* %s %s: DynamoOMPParallelLoopTrans refused: %s *)" % (name, setting_tag(dm, ann, omp), inst["rejected"].replace("*)", "* )").replace("(*", "( *")))
             continue
@@ -1217,7 +1245,7 @@ def emit_obligations(table, instances, doc, meta, kerns):
         c = cid(name)
         if name not in docnames:
             continue
-        for dm, ann, omp in SETTINGS + REPROD_SETTINGS:
+        for dm, ann, omp in SETTINGS + REPROD_SETTINGS + GRID_SETTINGS:
             inst = instances.get((name, dm, ann, omp))
             if inst is None or "rejected" in inst:
                 continue
@@ -1263,6 +1291,13 @@ def emit_obligations(table, instances, doc, meta, kerns):
     lemma("omp_coverage", "form_covered table 1 omp_builtin_names = true", "vm_compute. reflexivity.", "coverage", None)
     lemma("region_coverage", "form_covered table 2 region_builtin_names = true", "vm_compute. reflexivity.", "coverage", None)
     lemma("reprod_coverage", "form_covered table 3 reprod_builtin_names = true", "vm_compute. reflexivity.", "coverage", None)
+    grid_rows = ["(%d%%nat, sched_%s)" % (OMP_CODE[omp_base(m)], cid("none" if omp_sched(m) == "none" else omp_sched(m)))
+                 for (dm, ann, m) in GRID_SETTINGS if not dm]
+    out.append("Definition schedule_grid : list (nat * string) := [%s]." % "; ".join(grid_rows))
+    lemma("schedule_grid_coverage",
+          "forallb (fun n => forallb (fun g => existsb (fun p => String.eqb (i_name (fst p)) n && Nat.eqb (omp_code (fst p)) (fst g) && "
+          "match i_omp (fst p) with Some o => String.eqb (omp_schedule o) (snd g) | None => false end) table) schedule_grid) "
+          "reprod_builtin_names = true", "vm_compute. reflexivity.", "coverage", None)
     # every built-in whose documented definition is a SUM is among the reduction built-ins translated with reprod
     lemma("reductions_are_the_sum_builtins",
           "forallb (fun p => negb (is_reduction_spec (d_spec (snd p))) || existsb (String.eqb (i_name (fst p))) reduction_builtin_names) table = true",
